@@ -248,21 +248,50 @@ func (c *Ctx) checkedAtLink(mod *core.Module, fn *ssa.Function, reach map[*ssa.F
 		if link.Name() != "ApplyNamespace" || link.Signature.Recv() == nil || !strings.Contains(c.M.Key(link), "ScopeSchema") {
 			continue
 		}
+		// the branch may sit in ApplyNamespace itself or in a same-receiver helper it hands its parameters to (the helper's
+		// parameter then stands for ApplyNamespace's)
+		type frame struct {
+			g       *ssa.Function
+			isParam func(v ssa.Value) bool
+		}
+		frames := []frame{{link, func(v ssa.Value) bool { _, ok := v.(*ssa.Parameter); return ok }}}
 		for _, b := range link.Blocks {
 			for _, in := range b.Instrs {
-				call, ok := in.(*ssa.Call)
-				if !ok || call.Call.StaticCallee() != fn {
+				hc, ok := in.(*ssa.Call)
+				if !ok {
 					continue
 				}
-				for _, cond := range core.CondsAt(b) {
-					bin, ok := cond.V.(*ssa.BinOp)
-					if !ok || bin.Op != token.EQL || !cond.True {
+				h := core.StaticBody(&hc.Call)
+				if h == nil || h == fn || h.Signature.Recv() == nil || len(hc.Call.Args) == 0 || hc.Call.Args[0] != ssa.Value(link.Params[0]) {
+					continue
+				}
+				hcall := hc
+				frames = append(frames, frame{h, func(v ssa.Value) bool {
+					for i, q := range h.Params {
+						if ssa.Value(q) == v && i < len(hcall.Call.Args) {
+							_, ok := hcall.Call.Args[i].(*ssa.Parameter)
+							return ok
+						}
+					}
+					return false
+				}})
+			}
+		}
+		for _, fr := range frames {
+			for _, b := range fr.g.Blocks {
+				for _, in := range b.Instrs {
+					call, ok := in.(*ssa.Call)
+					if !ok || call.Call.StaticCallee() != fn {
 						continue
 					}
-					_, xIsParam := bin.X.(*ssa.Parameter)
-					_, yIsParam := bin.Y.(*ssa.Parameter)
-					if xIsParam || yIsParam {
-						return "linking a scope to itself calls " + fn.Name() + "() first (" + c.M.Key(link) + ", on the self-namespace branch), inside the loaders' recover scope: a received description with this defect is reported as invalid and never reaches the data API"
+					for _, cond := range core.CondsAt(b) {
+						bin, ok := cond.V.(*ssa.BinOp)
+						if !ok || !((bin.Op == token.EQL && cond.True) || (bin.Op == token.NEQ && !cond.True)) {
+							continue
+						}
+						if fr.isParam(bin.X) || fr.isParam(bin.Y) {
+							return "linking a scope to itself calls " + fn.Name() + "() first (" + c.M.Key(link) + ", on the self-namespace branch), inside the loaders' recover scope: a received description with this defect is reported as invalid and never reaches the data API"
+						}
 					}
 				}
 			}
